@@ -314,6 +314,15 @@ impl GlobalEnvironment {
     }
 }
 
+/// Read-only view for the verification hooks
+#[cfg(feature = "verif-hooks")]
+impl GlobalEnvironment {
+    /// The deep bindings (symbol heap index -> slot), independent of `iter_bindings`
+    pub fn verif_bindings(&self) -> &HashMap<usize, usize> {
+        &self.bindings
+    }
+}
+
 impl Default for GlobalEnvironment {
     fn default() -> Self {
         Self::new()
